@@ -96,6 +96,9 @@ pub fn pick_plain(r: &mut Rng, n: usize, kind: u64, qs: &[u64]) -> u64 {
         0 => { let b = (lg + 2).max(r.range(5, 22) as usize); std::panic::catch_unwind(|| hu::get_primes(2 * n as u64, b, 1)[0].value()).unwrap_or(3) }
         1 => 1u64 << r.range(1, 20),
         2 => 3,
+        // several bits wider than the FIRST coefficient prime: q mod t then exceeds q_0 for almost every chain (constants derived from
+        // q mod t / the upper-half increment must be the full values, not their residues mod q_0)
+        4 => { let mut t = ((qs[0] << r.range(2, 9)) + 1 + 2 * r.below(1 << 12)).min((1u64 << 59) + 1); while qs.iter().any(|&q| gcd(q, t) != 1) { t += 2; } t }
         _ => { let m = *qs.iter().min().unwrap(); let mut t = m + 2 + 2 * r.below(50); while qs.iter().any(|&q| gcd(q, t) != 1) { t += 1; } t }
     }
 }
